@@ -6,7 +6,7 @@ import ast
 from ..loops import dotted, find_env_loop
 from ..nf import NF, Scope, Poly, parse_expr
 from ..repo import Repo, loc, short, AnalysisError, positional_params, param_names, bind_call
-from ..sem import OrderModel, Unknown, order_formula, eval_order_formula, guard_literals
+from ..sem import OrderModel, Unknown, order_formula, eval_order_formula, guard_literals, result_position, result_position_def
 from ..sympath import enumerate_paths, PathEval
 
 EXPLANATION = (
@@ -211,41 +211,16 @@ def _assess_table(ck, repo, nf):
     return fn
 
 
-def _whole(cfg, name: str, at: int, call, depth: int = 0) -> bool:
-    """The variable holds the complete result of ``call`` at ``at`` (single definition, through copies)."""
-    if depth > 6:
-        return False
-    ds = cfg.defs_of(at, name)
-    if len(ds) != 1 or ds[0].kind != "assign":
-        return False
-    v = ds[0].value
-    if v is call:
-        return True
-    return isinstance(v, ast.Name) and _whole(cfg, v.id, ds[0].node, call, depth + 1)
-
-
 def _origin_def(cfg, d, call, depth: int = 0):
     """Position of the result of ``call`` that the definition ``d`` stores, or None."""
-    if depth > 6:
-        return None
-    if d.kind == "unpack" and d.path and len(d.path) == 1:
-        if d.value is call or (isinstance(d.value, ast.Name) and _whole(cfg, d.value.id, d.node, call)):
-            return d.path[0]
-        return None
-    if d.kind == "assign" and isinstance(d.value, ast.Name):
-        return _origin(cfg, d.value.id, d.node, call, depth + 1)
-    if d.kind == "assign" and isinstance(d.value, ast.Subscript) and isinstance(d.value.value, ast.Name) and isinstance(d.value.slice, ast.Constant) and isinstance(d.value.slice.value, int) \
-            and _whole(cfg, d.value.value.id, d.node, call):
-        return d.value.slice.value
-    return None
+    r = result_position_def(cfg, d, depth)
+    return r[1] if r is not None and r[0] is call else None
 
 
 def _origin(cfg, name: str, at: int, call, depth: int = 0):
     """Position in the result of ``call`` a variable holds at ``at`` (single definition, through copies), or None."""
-    ds = cfg.defs_of(at, name)
-    if len(ds) != 1:
-        return None
-    return _origin_def(cfg, ds[0], call, depth)
+    r = result_position(cfg, name, at, depth)
+    return r[1] if r is not None and r[0] is call else None
 
 
 def _trip_count(cfg, nf, mi, lp, qual):
